@@ -143,6 +143,8 @@ def _split_cases(seed, n):
     from . import c14
     k = 0
     for cid, s in c14.scenarios(seed + 1000, 'quick'):
+        if '_stream' in s or 'grid' not in s:
+            continue      # (the component streams of C14 are no portfolio scenarios)
         if s['grid'].get('unit', 'h') != 'h' and s['stream'] in ('uncoupled', 'takes') and not s.get('fixed_scaled'):
             yield 'split%d' % k, {'stream': 'split', 'case': s}
             k += 1
